@@ -20,6 +20,7 @@ pub mod c16;
 pub mod c17;
 pub mod c18;
 pub mod c19;
+pub mod c20;
 pub mod numgen;
 
 /// Run the check of property `id`; None if no such check exists.
@@ -44,6 +45,7 @@ pub fn dispatch(id: &str, opts: &Opts) -> Option<i32> {
         "C17" => run_property(&c17::C17, opts),
         "C18" => run_property(&c18::C18, opts),
         "C19" => run_property(&c19::C19, opts),
+        "C20" => run_property(&c20::C20, opts),
         _ => return None,
     })
 }
